@@ -613,7 +613,7 @@ Qed.
 
 (* ------------------------------------------------------------------ C04: module-level entities *)
 
-Definition C04_statement : Prop :=
+Definition full_statement : Prop :=
   forall sk body out e,
     ford_perms sk body = Some out -> In e out -> top_level e = true ->
     valid_for sk body (e_kind e) (e_name e) = true ->
@@ -642,11 +642,11 @@ Proof. destruct st; simpl; auto. apply filter_is_acc_id. Qed.
 
 Lemma region_zero body n :
   region body n = 0 ->
-  late_default n body = false /\ protected_given n body = false /\
+  late_default n body = false /\ protected_conflict n body = false /\
   declared_twice n body = false /\ names_blank_free body = true.
 Proof.
   unfold region.
-  destruct (late_default n body), (protected_given n body), (declared_twice n body),
+  destruct (late_default n body), (protected_conflict n body), (declared_twice n body),
     (names_blank_free body); simpl; intros H; try discriminate; auto.
 Qed.
 
@@ -705,11 +705,12 @@ Qed.
 Lemma module_top_correct body e :
   In e (top_of ScModule body) ->
   defaults_valid body = true -> consistent (e_name e) body = true ->
-  region body (e_name e) = 0 ->
+  late_default (e_name e) body = false -> protected_given (e_name e) body = false ->
+  declared_twice (e_name e) body = false -> names_blank_free body = true ->
   e_perm e = attr_access (explicit_specs (e_name e) body) (default_access body)
   /\ e_perm e <> Protected.
 Proof.
-  intros I V C R. apply region_zero in R as (RL & RP & RD & RB).
+  intros I V C RL RP RD RB.
   unfold protected_given in RP. apply has_false_In in RP.
   destruct (top_value_member body e I RD RB (or_intror RP))
     as (pre & st & post & Hb & Hd & Hpre & Hpost & [Hmem|[Hnil Hcur]]).
@@ -759,23 +760,6 @@ Qed.
 
 (* ------------------------------------------------------------------ the theorems on module-level entities *)
 
-Theorem partial : forall sk body out e,
-  ford_perms sk body = Some out -> In e out -> top_level e = true ->
-  valid_for sk body (e_kind e) (e_name e) = true ->
-  region body (e_name e) = 0 ->
-  e_perm e = fortran_perm sk body (e_kind e) (e_name e).
-Proof.
-  intros sk body out e F I T V R.
-  destruct (out_top_level sk body out e F I T) as (e1 & I1 & En & Ep & Ev & _).
-  rewrite <- Ep. destruct sk; simpl in V |- *.
-  - apply andb_true_iff in V as [V V3]. apply andb_true_iff in V as [V1 V2].
-    rewrite <- En in V2, R.
-    destruct (module_top_correct body e1 I1 V1 V2 R) as [H1 H2].
-    apply region_zero in R as (_ & RP & _ & _). unfold protected_given in RP.
-    rewrite <- En, RP, andb_false_r, <- H1. destruct (e_perm e1); congruence.
-  - now apply (submodule_top_private body).
-Qed.
-
 (* `protected` is recorded: a variable whose only explicit keyword is PROTECTED *)
 Theorem protected_recorded : forall body out e,
   ford_perms ScModule body = Some out -> In e out -> e_kind e = KVar ->
@@ -796,6 +780,33 @@ Proof.
     - unfold protected_given in PG. rewrite Hnil in PG. discriminate. }
   split; auto. intros D. simpl. unfold attr_access. rewrite NPriv, NPub, D, K.
   unfold protected_given in PG. rewrite PG. exact EP.
+Qed.
+
+Theorem partial : forall sk body out e,
+  ford_perms sk body = Some out -> In e out -> top_level e = true ->
+  valid_for sk body (e_kind e) (e_name e) = true ->
+  region body (e_name e) = 0 ->
+  e_perm e = fortran_perm sk body (e_kind e) (e_name e).
+Proof.
+  intros sk body out e F I T V R.
+  destruct sk.
+  2:{ destruct (out_top_level ScSubmodule body out e F I T) as (e1 & I1 & _ & Ep & _).
+      rewrite <- Ep. simpl in V |- *. now apply (submodule_top_private body). }
+  apply region_zero in R as (RL & RC & RD & RB).
+  simpl in V. apply andb_true_iff in V as [V V3]. apply andb_true_iff in V as [V1 V2].
+  destruct (protected_given (e_name e) body) eqn:PG.
+  - (* PROTECTED and nothing else, public default: the variable is recorded as protected *)
+    simpl in V3. unfold protected_conflict in RC. unfold protected_given in PG. rewrite PG in RC. simpl in RC.
+    apply orb_false_iff in RC as [RC RC3]. apply orb_false_iff in RC as [RC1 RC2].
+    assert (K : e_kind e = KVar) by (destruct (e_kind e); try discriminate; reflexivity).
+    assert (D : default_access body = Public).
+    { unfold default_access in *. destruct (existsb is_bare_private body); [discriminate|reflexivity]. }
+    exact (proj2 (protected_recorded body out e F I K RD RB PG RC1 RC2) D).
+  - destruct (out_top_level ScModule body out e F I T) as (e1 & I1 & En & Ep & Ev & _).
+    rewrite <- Ep. rewrite <- En in V2, RL, RD, PG.
+    destruct (module_top_correct body e1 I1 V1 V2 RL PG RD RB) as [H1 H2].
+    simpl. unfold protected_given in PG. rewrite <- En, PG, andb_false_r, <- H1.
+    destruct (e_perm e1); congruence.
 Qed.
 
 Theorem submodule_private : forall body out e,
@@ -915,20 +926,35 @@ Proof.
   - discriminate.
 Qed.
 
+Lemma filter_none {A} (f : A -> bool) l : (forall x, In x l -> f x = false) -> filter f l = [].
+Proof.
+  induction l as [|y l IH]; simpl; intros H; auto. rewrite (H y) by now left.
+  apply IH. intros x I. apply H. now right.
+Qed.
+
+Lemma filter_all {A} (f : A -> bool) l : (forall x, In x l -> f x = true) -> filter f l = l.
+Proof. intros H. apply filter_all_true. now apply forallb_forall. Qed.
+
+Lemma compent_kind owner d l x : In x (flat_map (compent owner d) l) -> e_kind x = KComp.
+Proof. rewrite in_flat_map. intros (st & _ & I). destruct st; simpl in I; try contradiction. now destruct I as [<-|[]]. Qed.
+
+Lemma bindent_kind owner d l x : In x (flat_map (bindent owner d) l) -> e_kind x = KBind.
+Proof. rewrite in_flat_map. intros (st & _ & I). destruct st; simpl in I; try contradiction. now destruct I as [<-|[]]. Qed.
+
 Lemma filter_flat_compent owner d l :
   filter (is_kind KComp) (flat_map (compent owner d) l) = flat_map (compent owner d) l /\
   filter (is_kind KBind) (flat_map (compent owner d) l) = [].
 Proof.
-  unfold is_kind. induction l as [|st r [IH1 IH2]]; simpl; auto.
-  destruct st; simpl; auto. now rewrite IH1, IH2.
+  split; [apply filter_all|apply filter_none]; intros x I; apply compent_kind in I;
+    unfold is_kind; now rewrite I.
 Qed.
 
 Lemma filter_flat_bindent owner d l :
   filter (is_kind KBind) (flat_map (bindent owner d) l) = flat_map (bindent owner d) l /\
   filter (is_kind KComp) (flat_map (bindent owner d) l) = [].
 Proof.
-  unfold is_kind. induction l as [|st r [IH1 IH2]]; simpl; auto.
-  destruct st; simpl; auto. now rewrite IH1, IH2.
+  split; [apply filter_all|apply filter_none]; intros x I; apply bindent_kind in I;
+    unfold is_kind; now rewrite I.
 Qed.
 
 (* Components and bindings: FORD's answer is Fortran's for every well-formed type body *)
@@ -1012,8 +1038,66 @@ Proof.
     repeat split; try (vm_compute; reflexivity); vm_compute; discriminate.
 Qed.
 
-Lemma statement_refuted : ~ C04_statement.
+Lemma statement_refuted : ~ full_statement.
 Proof.
   intros H. destruct refuted_late_default as [(out & F & I & T & V & _ & N) _].
   exact (N (H ScModule w_late out _ F I T V)).
 Qed.
+
+(* ------------------------------------------------------------------ non-vacuity *)
+
+Definition ex_body : list sstmt :=
+  [SDefault Private; SAccess Public [s "Alpha"; s "operator(+)"]; SVar false (s "alpha") [];
+   SVar true (s "n") [Public]; SType (s "t") [Private] [TDefault Private; TComp (s "c") [Public]];
+   SIface IAbstract (s "ai"); SIface IOperator (s "operator(+)"); SAccess Private [s "AI"];
+   SContains; SProc true (s "f")].
+
+Example ex_partial :
+  exists out, ford_perms ScModule ex_body = Some out /\
+    Forall (fun e => top_level e = true -> valid_for ScModule ex_body (e_kind e) (e_name e) = true /\
+                     region ex_body (e_name e) = 0) out /\
+    In (mk_ent KVar [] (s "alpha") Public) out /\ In (mk_ent KIfProc [] (s "ai") Private) out /\
+    In (mk_ent KFun [] (s "f") Private) out /\ In (mk_ent KOperator [] (s "operator(+)") Public) out.
+Proof.
+  eexists. split; [vm_compute; reflexivity|]. split.
+  - repeat constructor; vm_compute; intros; try discriminate; auto.
+  - simpl; tauto.
+Qed.
+
+Definition ex_prot_body : list sstmt :=
+  [SVar false (s "y") [Protected]; SAccess Protected [s "Z"]; SVar false (s "z") []].
+Example ex_protected_recorded :
+  exists out, ford_perms ScModule ex_prot_body = Some out /\
+    In (mk_ent KVar [] (s "z") Protected) out /\
+    declared_twice (s "z") ex_prot_body = false /\ names_blank_free ex_prot_body = true /\
+    protected_given (s "z") ex_prot_body = true /\
+    has Public (explicit_specs (s "z") ex_prot_body) = false /\
+    has Private (explicit_specs (s "z") ex_prot_body) = false /\ default_access ex_prot_body = Public.
+Proof. eexists. split; [vm_compute; reflexivity|]. split; [simpl; tauto|]. repeat split; vm_compute; reflexivity. Qed.
+
+Definition ex_sub_body : list sstmt :=
+  [SVar false (s "sv") []; SType (s "st") [] [TComp (s "c") []]; SIface IExplicit (s "sext");
+   SContains; SProc false (s "ss")].
+Example ex_submodule :
+  exists out, ford_perms ScSubmodule ex_sub_body = Some out /\ no_access_syntax ex_sub_body = true /\
+    In (mk_ent KVar [] (s "sv") Private) out /\ In (mk_ent KIfProc [] (s "sext") Private) out /\
+    In (mk_ent KComp (s "st") (s "c") Public) out.
+Proof. eexists. split; [vm_compute; reflexivity|]. split; [vm_compute; reflexivity|]. simpl; tauto. Qed.
+
+Definition ex_tbody : list tstmt :=
+  [TDefault Private; TComp (s "a") []; TComp (s "b") [Public]; TContains; TDefault Private;
+   TBind (s "p1") []; TBind (s "p2") [Public]].
+Example ex_types :
+  twf 0 ex_tbody = true /\
+  tchildren (s "t") ex_tbody =
+    [mk_ent KComp (s "t") (s "a") Private; mk_ent KComp (s "t") (s "b") Public;
+     mk_ent KBind (s "t") (s "p1") Private; mk_ent KBind (s "t") (s "p2") Public].
+Proof. split; vm_compute; reflexivity. Qed.
+
+Example ex_types_in_scope :
+  exists out, ford_perms ScModule ex_body = Some out /\ In (mk_ent KComp (s "t") (s "c") Public) out.
+Proof. eexists. split; [vm_compute; reflexivity|]. simpl; tauto. Qed.
+
+Example ex_raises : ford_perms ScModule [SProc false (s "a")] = None /\
+                    ford_perms ScModule [SContains; SProc false (s "a"); SContains] = None.
+Proof. split; reflexivity. Qed.
